@@ -181,7 +181,9 @@ func (u *Unit) callExternalDefault(call *ast.CallExpr, key string, f *types.Func
 			u.reg.declare(name, append(append([]string{}, ss...), "Int"), srt)
 			v = Val{T: app(name, append(append([]string{}, as...), st.epoch)...), S: srt, GT: t}
 		} else {
-			name := fmt.Sprintf("ext_%s_%d", sanitize(key), i)
+			// the same go/types accessor reached through the Object/Type interface or through a concrete
+			// type is one function
+			name := fmt.Sprintf("ext_%s_%d", sanitize(canonicalExtKey(key)), i)
 			// overloads by argument sorts (generic or variadic functions)
 			name += sortSuffix(ss)
 			u.reg.declare(name, ss, srt)
@@ -432,4 +434,25 @@ func (u *Unit) goValueTypeTag(x string, allowAlias bool) string {
 
 func isCountName(n string) bool {
 	return n == "Len" || strings.HasPrefix(n, "Num")
+}
+
+var goTypesObjectRecv = map[string]bool{"object": true, "Object": true, "Var": true, "Func": true, "TypeName": true, "Const": true, "PkgName": true, "Label": true, "Builtin": true, "Nil": true}
+var goTypesObjectMeth = map[string]bool{"Name": true, "Pkg": true, "Type": true, "Exported": true, "Pos": true, "Parent": true, "Id": true}
+var goTypesTypeRecv = map[string]bool{"Type": true, "Named": true, "Basic": true, "Pointer": true, "Slice": true, "Array": true, "Map": true, "Struct": true, "Interface": true, "Signature": true, "Chan": true, "TypeParam": true, "Alias": true, "Tuple": true}
+
+func canonicalExtKey(key string) string {
+	if !strings.HasPrefix(key, "go/types.") {
+		return key
+	}
+	parts := strings.Split(strings.TrimPrefix(key, "go/types."), ".")
+	if len(parts) != 2 {
+		return key
+	}
+	if goTypesObjectRecv[parts[0]] && goTypesObjectMeth[parts[1]] {
+		return "go/types.Object." + parts[1]
+	}
+	if goTypesTypeRecv[parts[0]] && (parts[1] == "Underlying" || parts[1] == "String") {
+		return "go/types.Type." + parts[1]
+	}
+	return key
 }
